@@ -22,8 +22,8 @@ Lemma cvptr_S f d toks : cvptr (S f) d toks =
   match toks with
   | t :: r =>
       if is STAR t then (if is_ref d then DErr 1 else cvptr f (TPtr d false false) r)
-      else if is T_const t then match set_const d with Some d' => cvptr f d' r | None => DErr 1 end
-      else if is T_volatile t then match set_volatile d with Some d' => cvptr f d' r | None => DErr 1 end
+      else if is T_const t then match set_const d with DOk d' => cvptr f d' r | DErr e => DErr e end
+      else if is T_volatile t then match set_volatile d with DOk d' => cvptr f d' r | DErr e => DErr e end
       else if is LP t then
         match r with
         | t2 :: _ =>
@@ -818,34 +818,69 @@ Proof.
     + isc. rewrite H2 by lia. exact Hend.
 Qed.
 
+Lemma join_cons2 x y l : join_comma (x :: y :: l) = x ++ ktok COMMA :: join_comma (y :: l).
+Proof. reflexivity. Qed.
+
+Lemma var_tail_layers b c v ls n rest :
+  legalL KB ls = true -> Forall layer_ok ls -> kind_end KB ls <> KFn -> follow_ok rest = true ->
+  ev (fun f => var_tail f (TBase b c v) (P ls [mkTk T_NAME n] ++ rest))
+     (DOk (n, wrap (TBase b c v) ls, rest)).
+Proof.
+  intros Hleg Hok Hk Hf.
+  destruct (declarator_rt b c v ls (Some n) rest Hleg Hok Hk Hf) as (arrs & d & Hsn & Hnf & Hnr & Hw & [f1 H1]).
+  cbn [name_toks] in H1.
+  destruct arrs as [|s r].
+  - cbn [map wrap fold_left] in Hw. subst d. cbn [sufs app] in H1.
+    exists f1. intros f Hge. unfold var_tail. rewrite H1 by lia. rewrite Hnf. isc. cbn [kval].
+    destruct rest as [|t r]; [reflexivity|].
+    destruct (follow_inv t r Hf) as (_ & _ & _ & _ & _ & H6 & H7 & _). now rewrite H7, H6.
+  - destruct (arr_tail d (s :: r) rest ltac:(discriminate) (Hnr ltac:(discriminate)) Hsn (follow_nolb _ Hf))
+      as (A & EA & [f2 H2]).
+    rewrite EA in H1. rewrite Hw in H2.
+    exists (Nat.max f1 f2). intros f Hge. unfold var_tail. rewrite H1 by lia. rewrite Hnf. cbn [app]. isc.
+    cbn [kval]. rewrite H2 by lia. reflexivity.
+Qed.
+
 Lemma var_layers b c v ls n rest :
   legalL KB ls = true -> Forall layer_ok ls -> kind_end KB ls <> KFn -> follow_ok rest = true ->
   ev (fun f => parse_var f (base_toks3 b c v ++ P ls [mkTk T_NAME n] ++ rest))
      (DOk (n, wrap (TBase b c v) ls, rest)).
 Proof.
   intros Hleg Hok Hk Hf.
-  destruct (declarator_rt b c v ls (Some n) rest Hleg Hok Hk Hf) as (arrs & d & Hsn & Hnf & Hnr & Hw & [f1 H1]).
-  cbn [name_toks] in H1.
-  assert (Hpb : parse_base (base_toks3 b c v ++ P ls [mkTk T_NAME n] ++ rest)
-                = DOk (TBase b c v, P ls [mkTk T_NAME n] ++ rest)).
-  { apply parse_base_rt. apply (nocv_P (Some n)). now apply follow_nocv. }
-  destruct arrs as [|s r].
-  - cbn [map wrap fold_left] in Hw. subst d. cbn [sufs app] in H1.
-    exists f1. intros f Hge. unfold parse_var. rewrite Hpb, H1 by lia. rewrite Hnf. isc. cbn [kval].
-    destruct rest as [|t r]; [reflexivity|].
-    destruct (follow_inv t r Hf) as (_ & _ & _ & _ & _ & H6 & H7 & _). now rewrite H7, H6.
-  - destruct (arr_tail d (s :: r) rest ltac:(discriminate) (Hnr ltac:(discriminate)) Hsn (follow_nolb _ Hf))
-      as (A & EA & [f2 H2]).
-    rewrite EA in H1. rewrite Hw in H2.
-    exists (Nat.max f1 f2). intros f Hge. unfold parse_var. rewrite Hpb, H1 by lia. rewrite Hnf. cbn [app]. isc.
-    cbn [kval]. rewrite H2 by lia. reflexivity.
+  destruct (var_tail_layers b c v ls n rest Hleg Hok Hk Hf) as [f1 H1].
+  exists f1. intros f Hge. unfold parse_var.
+  rewrite parse_base_rt by (apply (nocv_P (Some n)); now apply follow_nocv).
+  now apply H1.
+Qed.
+
+(* several declarators after one base type *)
+Lemma decl_list_layers b c v : forall items rest,
+  items <> [] ->
+  Forall (fun it => legalL KB (fst it) = true /\ Forall layer_ok (fst it) /\ kind_end KB (fst it) <> KFn) items ->
+  ev (fun f => decl_list (length items) f (TBase b c v)
+                 (join_comma (map (fun it => P (fst it) [mkTk T_NAME (snd it)]) items) ++ ktok SEMI :: rest))
+     (DOk (map (fun it => (snd it, wrap (TBase b c v) (fst it))) items, rest)).
+Proof.
+  induction items as [|[ls n] q IH]; intros rest Hne Hall; [contradiction|].
+  inversion Hall as [|? ? (Hleg & Hok & Hk) Hq]; subst. cbn [fst snd] in *.
+  destruct q as [|it2 q'].
+  - cbn [map join_comma length].
+    destruct (var_tail_layers b c v ls n (ktok SEMI :: rest) Hleg Hok Hk eq_refl) as [f1 H1].
+    exists f1. intros f Hge. cbn [decl_list]. rewrite H1 by lia. isc. reflexivity.
+  - cbn [map]. rewrite join_cons2. rewrite <- app_assoc. cbn [app].
+    change (P (fst it2) [mkTk T_NAME (snd it2)] :: map (fun it => P (fst it) [mkTk T_NAME (snd it)]) q')
+      with (map (fun it => P (fst it) [mkTk T_NAME (snd it)]) (it2 :: q')).
+    destruct (IH rest ltac:(discriminate) Hq) as [f2 H2].
+    destruct (var_tail_layers b c v ls n
+                (ktok COMMA :: join_comma (map (fun it => P (fst it) [mkTk T_NAME (snd it)]) (it2 :: q')) ++ ktok SEMI :: rest)
+                Hleg Hok Hk eq_refl) as [f1 H1].
+    exists (Nat.max f1 f2). intros f Hge.
+    change (length ((ls, n) :: it2 :: q')) with (S (length (it2 :: q'))). cbn [decl_list].
+    rewrite H1 by lia. isc. rewrite H2 by lia. reflexivity.
 Qed.
 
 (* ------------------------------------------------------------------ *)
 (* parameter lists *)
-
-Lemma join_cons2 x y l : join_comma (x :: y :: l) = x ++ ktok COMMA :: join_comma (y :: l).
-Proof. reflexivity. Qed.
 
 Definition param_rt (p : ty * option N) : Prop :=
   forall rest, follow_ok rest = true ->
@@ -1047,6 +1082,42 @@ Proof.
   pose proof (var_layers b c v (layers t) n rest (legal_layers t Hwf) (layers_ok t Hwf)
                 ltac:(now rewrite kind_layers) Hf) as HH.
   rewrite Ew in HH. rewrite Ed, <- app_assoc. exact HH.
+Qed.
+
+(* `T d1, d2, ..., dn;` : one entry per declarator, in source order, each with
+   its own type built on the shared base type *)
+Theorem decls_roundtrip b c v (ts : list (ty * N)) rest :
+  ts <> [] ->
+  Forall (fun p => wf (fst p) /\ obj_ty (fst p) /\ base_of (fst p) = (b, c, v)) ts ->
+  ev (fun f => parse_decls (length ts) f
+                 (base_toks3 b c v ++ join_comma (map (fun p => D (fst p) [mkTk T_NAME (snd p)] false) ts) ++ ktok SEMI :: rest))
+     (DOk (map (fun p => (snd p, fst p)) ts, rest)).
+Proof.
+  intros Hne Hall.
+  pose (items := map (fun p => (layers (fst p), snd p)) ts).
+  assert (Hi : Forall (fun it => legalL KB (fst it) = true /\ Forall layer_ok (fst it) /\ kind_end KB (fst it) <> KFn) items).
+  { unfold items. apply Forall_forall. intros it Hin. apply in_map_iff in Hin as ([t n] & <- & Hin).
+    rewrite Forall_forall in Hall. destruct (Hall _ Hin) as (Hwf & [Hk _] & _). cbn [fst snd] in *.
+    split; [now apply legal_layers|split; [now apply layers_ok|now rewrite kind_layers]]. }
+  assert (Hne' : items <> []) by (unfold items; destruct ts; [contradiction|discriminate]).
+  destruct (decl_list_layers b c v items rest Hne' Hi) as [f1 H1].
+  assert (E1 : map (fun it => P (fst it) [mkTk T_NAME (snd it)]) items
+               = map (fun p => D (fst p) [mkTk T_NAME (snd p)] false) ts).
+  { unfold items. rewrite map_map. apply map_ext. intros [t n]. cbn [fst snd]. now rewrite D_is_P. }
+  assert (E2 : map (fun it => (snd it, wrap (TBase b c v) (fst it))) items = map (fun p => (snd p, fst p)) ts).
+  { unfold items. rewrite map_map. apply map_ext_in. intros [t n] Hin. cbn [fst snd].
+    rewrite Forall_forall in Hall. destruct (Hall _ Hin) as (_ & _ & Hb). cbn [fst] in Hb.
+    pose proof (wrap_layers t) as Hw. unfold base_ty in Hw. rewrite Hb in Hw. now rewrite Hw. }
+  assert (E3 : length items = length ts) by (unfold items; now rewrite map_length).
+  rewrite E1, E2, E3 in H1.
+  exists f1. intros f Hge. unfold parse_decls.
+  rewrite parse_base_rt.
+  - now apply H1.
+  - destruct ts as [|[t n] q]; [contradiction|]. cbn [map fst snd].
+    rewrite D_is_P.
+    destruct (map (fun p => D (fst p) [mkTk T_NAME (snd p)] false) q) as [|y l].
+    + cbn [join_comma]. apply (nocv_P (Some n)). reflexivity.
+    + rewrite join_cons2, <- app_assoc. apply (nocv_P (Some n)). reflexivity.
 Qed.
 
 Theorem param_roundtrip t nm rest :
